@@ -21,7 +21,7 @@ NA = {
 # property -> (level category, level text, level note, technique, design ref)
 CLAIMED = {
  "C18": ("exploration",
-         "2..9 seeded caller tasks (writers \u2014 some with caller mistakes \u2014, readers and decoders of symbol-table histories and of general documents, encoders, Marshal/Unmarshal of 20 static and many dynamic Go types, table / catalog / token helpers, the owner of a symbol table builder), each with its own ion-go objects, share shared symbol tables, Adjust()ed views, slices of tables, a token list, a built local table, one catalog (often skewed), the system table and Go types. Part A: the tasks run as parked goroutines under a seeded scheduler that picks who runs next at every Source.Read / Sink.Write / catalog lookup (one pick list = one replayable interleaving; six policies); each task's output must equal its solo baseline \u2014 on one index in 16 (quick: 32) also the baseline taken in a fresh process \u2014 and a public-API digest of every shared object must be unchanged at every yield and at the end. Part B: the same seeded task sets run free in a -race build in 160 short-lived processes (each starting with a cold-start burst) at GOMAXPROCS 16 and 2; any race report attributable to package ion fails the check.",
+         "2..9 seeded caller tasks (writers \u2014 some with caller mistakes \u2014, readers and decoders of symbol-table histories and of general documents, encoders, Marshal/Unmarshal of 20 static and many dynamic Go types, table / catalog / token helpers, the owner of a symbol table builder), each with its own ion-go objects, share shared symbol tables, Adjust()ed views, slices of tables, a token list, a built local table, one catalog (often skewed), the system table and Go types. Part A: the tasks run as parked goroutines under a seeded scheduler that picks who runs next at every Source.Read / Sink.Write / catalog lookup (one pick list = one replayable interleaving; six policies); each task's output must equal its solo baseline \u2014 on one index in 16 (quick: 32) also the baseline taken in a fresh process \u2014 and a public-API digest of every shared object must be unchanged at every yield (past step 3000 of a run: at every 32nd) and at the end. Part B: the same seeded task sets run free in a -race build in 160 short-lived processes (each starting with a cold-start burst) at GOMAXPROCS 16 and 2; any race report attributable to package ion fails the check.",
          "Part A cannot see data races (a parked hand-off is a happens-before edge); part B's schedule is the Go runtime's and is not controlled, its oracle is the race detector's happens-before analysis (bounded history, can miss). Solo baselines are ion-go's own output.",
          "deterministic simulation: seeded parked-goroutine scheduler over seam-call yield points with solo-baseline (in-process and fresh-process) and shared-state-digest oracles; plus the same seeded workloads free-running under the Go race detector",
          "DESIGN.md section 3 C18 and section 7"),
